@@ -179,6 +179,26 @@ func init() {
 				}
 			}
 		}
+		// cache: the message that is stored gets a Question slice of its own (redirect above the cache restores the live
+		// reply's question in place after the entry was stored)
+		cn := ex.fn("plugin/executable/cache/utils.go", "", "copyNoOpt")
+		okCopyQ := false
+		if cn != nil {
+			nAssign := 0
+			ast.Inspect(cn.Body, func(n ast.Node) bool {
+				if a, ok := n.(*ast.AssignStmt); ok {
+					for _, l := range a.Lhs {
+						if strings.HasPrefix(ex.str(l), "m2.Question") {
+							nAssign++
+						}
+					}
+				}
+				return true
+			})
+			ss := stmtStrings(ex, cn.Body)
+			okCopyQ = nAssign == 1 && contains(ss, "m2.Question = make([]dns.Question, len(m.Question))") && contains(ss, "copy(m2.Question, m.Question)")
+		}
+		ex.setBool("c03CacheStoreCopiesQuestion", okCopyQ, cn != nil, "cache copyNoOpt: the stored message's Question slice is allocated (make + copy), the only assignment to it")
 		ex.setBool("c03UdpUnpackInReadLoop", okUDP, shapeUDP, "ServeUDP: the loop unpacks (*rb)[:n] into a fresh message before `go`; the handler goroutine (last statement of the loop body) refers to neither rb nor ob")
 		ex.setBool("c03LocalAnswersUseSetReply", okLocal, true, "hosts.LookupMsg, black_hole.Response, zone_file Reply, GenEmptyReply build their message with SetReply/SetRcode from the query")
 	})
